@@ -20,6 +20,8 @@ import (
 	"verifharness/vf"
 )
 
+var knownSeen int // violations that matched a known finding (replay wording only)
+
 const (
 	maxNumEntries = 30000 // lib/raftlog/log.go (only used to aim the generator and to name coverage classes)
 	storeMarker   = "c17store-"
@@ -105,7 +107,9 @@ func (r *runner) fail(obs, what string, detail any) {
 	}
 	sig := fmt.Sprintf("%s|%s", obs, r.hist())
 	if r.c != nil {
-		r.c.Violation(sig, fmt.Sprintf("rw=%d seq=%s op#%d: %s", r.rw, r.id, len(r.ops), what), r.witness(detail))
+		if r.c.Violation(sig, fmt.Sprintf("rw=%d seq=%s op#%d: %s", r.rw, r.id, len(r.ops), what), r.witness(detail)) {
+			knownSeen++
+		}
 	}
 }
 
